@@ -469,7 +469,7 @@ class TrafficChecker:
         return None
 
 
-def setup_pair(r, kinds, dyn, L, rpipe, aw, ackpl, arc):
+def setup_pair(r, kinds, dyn, L, rpipe, aw, ackpl, arc, late=False):
     """compatible configuration of two nodes; node 1 receives on rpipe[1], node 0 (if ping-pong) on rpipe[0]"""
     ch, rate = r.choice([0, 76, 125, r.randrange(126)]), r.choice([1, 2, 250])
     ops, addr = [], {}
@@ -477,11 +477,15 @@ def setup_pair(r, kinds, dyn, L, rpipe, aw, ackpl, arc):
         ops += [("select", n), ("channel=", ch), ("data_rate=", rate), ("address_length=", aw), ("arc=", arc), ("ard=", r.choice([250, 1500, 4000]))]
         if kinds[n] == "full":
             ops += [("crc=", 2), ("auto_ack=", True), ("allow_ask_no_ack=", True)]
-        ops += [("dynamic_payloads=", dyn)]
-        if not dyn:
-            ops += [("payload_length=", L)]
-        if ackpl:
-            ops += [("ack=", True)]
+        if late and kinds[n] == "lite":
+            # the documented reduction: on the lite driver `ack = True` switches dynamic payloads on for every pipe
+            ops += [("dynamic_payloads=", False), ("payload_length=", L), ("ack=", True)]
+        else:
+            ops += [("dynamic_payloads=", dyn)]
+            if not dyn:
+                ops += [("payload_length=", L)]
+            if ackpl:
+                ops += [("ack=", True)]
         if rpipe[n] is not None:
             base = bytes(r.randrange(1, 255) for _ in range(5))
             if rpipe[n] < 2:
@@ -505,7 +509,10 @@ def gen_traffic(r, kinds):
     rpipe = {1: r.randrange(6), 0: 0 if both else None}
     if both:
         rpipe[1] = 0 if r.random() < 0.7 else rpipe[1]
-    ops, addr = setup_pair(r, kinds, dyn, L, rpipe, aw, ackpl, arc)
+    late = "lite" in kinds and r.random() < 0.2
+    if late:
+        dyn = ackpl = True
+    ops, addr = setup_pair(r, kinds, dyn, L, rpipe, aw, ackpl, arc, late)
     for n in (0, 1):
         if 1 - n in addr:
             ops += [("select", n), ("open_tx_pipe", addr[1 - n][:aw])]
